@@ -34,7 +34,10 @@ PLANS = {
                 "cell; distinct = feature signature x outcome x callback count. Optimiser layer: random pass sequences on a "
                 "DetailedPlacer. Data-structure layer: exhaustive BFS over swap/insert sequences on small DetailedPlacement instances",
         "assumptions": ["legality oracle independent of the library", "tall cells compared with the first callback state and the legalize-only copy"],
-        "runs": flow("c02.api", C01_PROFILES, "asan", 250, 2500) + flow("c02.api", C01_PROFILES, "fast", 0, 10000),
+        "runs": flow("c02.api", C01_PROFILES, "asan", 250, 2500) + flow("c02.api", C01_PROFILES, "fast", 0, 10000)
+                + [R("h_dp", "asan", "c02.opt", 1500, 15000), R("h_dp", "fast", "c02.opt", 0, 60000),
+                   R("h_dp", "fast", "c02.ds.closure", 1080, 1080, exhaustive=True),
+                   R("h_dp", "asan", "c02.ds.walk", 4000, 100000)],
     },
     "C03": {
         "level": "exploration",
@@ -63,7 +66,8 @@ PLANS = {
                 "distinct = feature signature x outcome x callback count",
         "assumptions": ["a rise is attributed to the known finding only if the frozen-orientation wirelength did not rise and a polarised cell with pins changed orientation"],
         "runs": flow("c05", ["general", "nets", "polarity", "dense", "multirow", "rowhigh-any"], "asan", 300, 3000)
-                + flow("c05", ["general", "nets", "polarity", "dense", "multirow", "rowhigh-any"], "fast", 0, 12000),
+                + flow("c05", ["general", "nets", "polarity", "dense", "multirow", "rowhigh-any"], "fast", 0, 12000)
+                + [R("h_dp", "asan", "c05.opt", 1500, 15000), R("h_dp", "fast", "c05.opt", 0, 60000)],
     },
     "C07": {
         "level": "exploration",
@@ -94,5 +98,55 @@ PLANS = {
                 + [R("h_flow", "asan", "c11.constructed", 1500, 20000)]
                 + flow("c11.relegalize", ["general", "rowhigh", "obstruction", "polarity", "dense"], "fast", 0, 20000)
                 + [R("h_flow", "fast", "c11.constructed", 0, 60000)],
+    },
+    "C09": {
+        "level": "exploration",
+        "rule": "(a) Circuit::hpwl, pinX/YOffset, placedWidth/Height vs the DEF-transform reference on circuits with arbitrary "
+                "orientations (all 8, also on fixed cells), positions and pin offsets incl. far outside the outline, repeated cells, "
+                "single-pin nets; (b) IncrNetModel x/y topologies over all cells, random subsets, the empty subset and shuffled "
+                "orders: initial value and value after each of up to 30 random updateCellPos vs a from-scratch 1-D HPWL, check() after "
+                "each; (c) DetailedPlacer::value() vs frozen-orientation reference after every optimiser pass; non-trivial = pins "
+                "checked / updates applied / cells moved; distinct = orientation set, axis, mode, sizes",
+        "assumptions": ["reference pin transform table in harness/circ.hpp (DEF semantics)"],
+        "runs": [R("h_hpwl", "asan", "c09.hpwl", 20000, 200000), R("h_hpwl", "asan", "c09.incr", 10000, 100000),
+                 R("h_hpwl", "fast", "c09.hpwl", 0, 1000000), R("h_hpwl", "fast", "c09.incr", 0, 400000),
+                 R("h_dp", "asan", "c09.opt", 1000, 10000), R("h_dp", "fast", "c09.opt", 0, 40000)],
+    },
+    "C12": {
+        "level": "exploration",
+        "rule": "exhaustive: every insertion sequence of <= 4 cells (widths 1..3, targets in [b-3,e+3]) into segments [b,b+L), "
+                "L<=7, b in {-1,1}; per sequence: getCost twice == push, queried vs never-queried legalizer "
+                "identical, placement ordered/non-overlapping/inside, displacement == optimum (isotonic-L1 DP cross-checked by brute "
+                "force), sum of reported costs == optimum. Random: up to 40 cells, segments up to 2000, random query masks; "
+                "coordinates up to 2^22 with the isotonic DP oracle. non-trivial = >= 2 cells; distinct = (b,L,first cell) family or "
+                "size/fill bucket",
+        "assumptions": ["isotonic-L1 DP over the candidate set is exact (cross-checked against brute force for segments <= 300)"],
+        "runs": [R("h_row", "fast", "c12.exhaustive7", 588, 588, exhaustive=True),
+                 R("h_row", "asan", "c12.random", 20000, 200000), R("h_row", "asan", "c12.big", 5000, 100000),
+                 R("h_row", "fast", "c12.random", 0, 1000000), R("h_row", "fast", "c12.big", 0, 400000)],
+    },
+    "C13": {
+        "level": "exploration",
+        "rule": "random problems 1..60 sources x 1..16 sinks (int and float costs, ties, zeros, geometric |position| costs, spreads to "
+                "10^6, balanced / slack / after increaseCapacity) and exhaustive tiny problems (<=3 sources x <=3 sinks, demands and "
+                "capacities 1..3, every cost matrix over {0,1} quick / {0,1,2} thorough); oracle = feasibility + equality with the "
+                "lemon NetworkSimplex optimum in 64-bit on the solver's own integer cost matrix, lemon cross-checked by brute-force "
+                "enumeration on tiny instances; toAssignment = arg-max per source; float->fixed-point monotone with bounded error; "
+                "non-trivial = >= 2 sources and >= 2 sinks; distinct = cost type, sizes, cost range, balance",
+        "assumptions": ["lemon NetworkSimplex is exact (cross-checked by brute force for tiny sizes)", "integer costs below 2^29/nbSinks"],
+        "runs": [R("h_transp", "asan", "c13.random", 20000, 200000), R("h_transp", "fast", "c13.exhaustive2", 1521, 1521, exhaustive=True),
+                 R("h_transp", "fast", "c13.exhaustive3", 0, 1521, exhaustive=True), R("h_transp", "fast", "c13.random", 0, 600000)],
+    },
+    "C14": {
+        "level": "exploration",
+        "rule": "random instances (1..40 sources, 1..12 sinks, unsorted and duplicate positions up to 10^8, supplies/demands up to "
+                "10^6, exact balance / slack / deficit repaired by balanceDemand, with and without zero supplies and zero demands) "
+                "and exhaustive tiny instances (<=3x3, positions 0..2, supplies and demands 0..2); oracle = plan validity + cost "
+                "equality with lemon NetworkSimplex; assign(): length, positive-demand sinks, unsplit sources follow the plan; ASan "
+                "guards the result vector; non-trivial = >= 2 sources and >= 2 sinks; distinct = sizes, magnitude buckets, zeros, balance",
+        "assumptions": ["lemon NetworkSimplex is exact"],
+        "runs": [R("h_t1d", "asan", "c14.random", 15000, 150000), R("h_t1d", "asan", "c14.zeros", 15000, 150000),
+                 R("h_t1d", "asan", "c14.exhaustive", 1521, 1521, exhaustive=True),
+                 R("h_t1d", "fast", "c14.random", 0, 500000), R("h_t1d", "fast", "c14.zeros", 0, 500000)],
     },
 }
